@@ -63,6 +63,13 @@ def _worker(args):
     res = dict(contract=c.name, cfg=run.cfg_key(cfg), props=list(c.props), tier="P", obligations=[],
                paths=0, oor=None, cover=None, violations=[], undecided=[], bounded=[], conform=None,
                secs=0.0, ci=ci, gi=gi)
+    if isinstance(c, harness.EnumContract):
+        try:
+            _enum_worker(res, c, cfg, tier, seed)
+        except Exception as e:
+            res["crash"] = "%s: %s\n%s" % (type(e).__name__, e, traceback.format_exc(limit=8))
+        res["secs"] = time.time() - t0
+        return res
     try:
         repo = loader.Repo()
         decl_tier = getattr(c, "tier", "P")
@@ -86,11 +93,16 @@ def _worker(args):
             if out["cover"] and not str(out["cover"]).startswith("ok"):
                 res["undecided"].append(dict(obligation="cover", reason=out["cover"]))
             seen = set()
+            t_cex = time.time()
             for pi, ob, po in out["fails"]:
                 if ob.name in seen:
                     continue
                 seen.add(ob.name)
-                _handle_failure(res, c, repo, cfg, dict(name=ob.name, ob=ob, po=po), seed, sized=False)
+                # counterexample search budget per function: 2 confirmed replays or 150 s;
+                # further failing obligations are reported without an input of their own
+                n_conf = sum(1 for v in res["violations"] if v["confirmed"])
+                search = n_conf < 2 and time.time() - t_cex < 150
+                _handle_failure(res, c, repo, cfg, dict(name=ob.name, ob=ob, po=po), seed, sized=False, search=search)
         # conformance: the same contract on the real package with real numpy, random inputs
         res["conform"] = run.conform(c, cfg, seed, n=(25 if tier == "thorough" else 4))
         for cf in res["conform"]["failures"]:
@@ -102,7 +114,41 @@ def _worker(args):
     return res
 
 
-def _handle_failure(res, c, repo, cfg, f, seed, sized):
+def _enum_worker(res, c, cfg, tier, seed):
+    harness.activate_native()
+    res["tier"] = "E"
+    n = 0
+    fails = {}
+    first = {}
+    t0 = time.time()
+    budget = 600 if tier == "thorough" else 100
+    for case in c.cases(cfg, seed, tier == "thorough"):
+        n += 1
+        try:
+            bad = c.check_case(case, cfg)
+        except Exception as e:
+            bad = ["exception:%s: %s" % (type(e).__name__, e)]
+        for b in bad:
+            fails[b] = fails.get(b, 0) + 1
+            first.setdefault(b, case)
+        if time.time() - t0 > budget:
+            res["undecided"].append(dict(obligation="enumeration", reason="time budget reached after %d cases" % n))
+            break
+    clauses = list(c.clauses) or ["all"]
+    for cl in clauses:
+        nbad = sum(v for k, v in fails.items() if k == cl or k.startswith(cl + ":"))
+        res["obligations"].append(dict(name="%s (%d cases)" % (cl, n), status="proved" if nbad == 0 else "refuted",
+                                       secs=0.0, kind="enum", detail=None, tier="E"))
+    for k, v in fails.items():
+        if not any(k == cl or k.startswith(cl + ":") for cl in clauses):
+            res["obligations"].append(dict(name=k, status="refuted", secs=0.0, kind="enum", detail=None, tier="E"))
+    res["bounded"] = dict(cases=n, bound=c.bound)
+    res["paths"] = n
+    for b, case in first.items():
+        res["violations"].append(dict(obligation=b, replay=dict(found=True, case=case, failures=[b], count=fails[b]), confirmed=True))
+
+
+def _handle_failure(res, c, repo, cfg, f, seed, sized, search=True):
     name = f["name"]
     if sized and f.get("replay"):
         res["violations"].append(dict(obligation=name, replay=f["replay"], confirmed=True))
@@ -111,11 +157,13 @@ def _handle_failure(res, c, repo, cfg, f, seed, sized):
         res["undecided"].append(dict(obligation=name, reason=f.get("reason", "bounded obligation not discharged")))
         return
     hint = None
-    try:
-        hint = run.hint_sizes(c, cfg, f["ob"], f["po"])
-    except Exception:
-        hint = None
-    cex = run.find_counterexample(c, repo, cfg, name, seed=seed, hint=hint)
+    cex = dict(found=False, tried=0)
+    if search:
+        try:
+            hint = run.hint_sizes(c, cfg, f["ob"], f["po"])
+        except Exception:
+            hint = None
+        cex = run.find_counterexample(c, repo, cfg, name, seed=seed, hint=hint)
     if cex.get("found"):
         res["violations"].append(dict(obligation=name, replay=cex, confirmed=True))
     else:
@@ -292,6 +340,11 @@ def do_replay(path):
     assert c.name == body["contract"], "contract registry changed"
     cfg = list(c.configs())[body["gi"]]
     rp = body["replay"]
+    if "case" in rp:
+        harness.activate_native()
+        bad = c.check_case(rp["case"], cfg)
+        print("replay %s [%s]: case %s -> failed clauses %s" % (c.name, body["cfg"], json.dumps(rp["case"])[:400], bad))
+        return 1 if bad else 0
     if not rp.get("found", True) and "values" not in rp:
         print("replay file carries no input (no-failing-input-found); obligation:", body["obligation"])
         print((rp.get("msg") or "")[:2000])
